@@ -3,6 +3,9 @@
 From FoxBase Require Import Bytes.
 From FoxC19 Require Import GenC19 Types Pattern Spec Model.
 
+(* b repeated n times: lets the harness write patterns with tens of thousands of wildcards compactly *)
+Definition brep (n : N) (b : bytes) : bytes := N.iter n (app b) [].
+
 Inductive case := Case (g : list gopt) (pats : list bytes) (ops : list op) (observed : result).
 
 Definition model_agrees (c : case) : bool :=
@@ -13,7 +16,7 @@ Definition spec_ok (c : case) : bool :=
 
 (* call site fox.go NewRoute: a nil handler is not rejected *)
 Definition nil_newroute (o : op) : bool :=
-  match o with OCreate VNewRoute _ false _ => true | _ => false end.
+  match o with OCreate (VNewRoute | VOnly) _ false _ => true | _ => false end.
 Definition known_nil_newroute (c : case) : bool :=
   let '(Case g pats ops observed) := c in
   model_agrees c && negb (spec_ok c) && existsb nil_newroute ops && negb newroute_checks_nil_handler.
